@@ -21,7 +21,6 @@ open Lungo.C11
 #print axioms Lungo.C11.Put_never_panics
 #print axioms Lungo.C11.put_doc_returns_doc
 #print axioms Lungo.C11.get_put_same
-#print axioms Lungo.C11.get_put_general
 #print axioms Lungo.C11.put_other_path_stable
 #print axioms Lungo.C11.put_keeps_field_order
 #print axioms Lungo.C11.put_result_shape
